@@ -1,21 +1,1001 @@
+// C06 "no output is ever spent twice" — explicit-state search on the node tier (chainkit).
+//
+// System: a fresh regnet-style node (pure PoW era, CoinbaseMaturity 1) with a fixed prefix of 4
+// coinbase-only blocks, three harness addresses (A = foundation, M = miner, C = carol) and a menu
+// of 8 signed transfers that pairwise share outpoints of the matured coinbases of blocks 1 and 2
+// (or of each other). Operations (per state, canonical order):
+//
+//	sub:i          TxPool.AppendToTxPool(menu[i])
+//	mine:S         build the next block on the tip holding exactly S (no miner filtering) and
+//	               deliver it; S is a list of menu indices, "-" (empty) or "pool" (whole pool)
+//	fork:k:S       the same on the active-chain ancestor k blocks below the tip (side chain)
+//	ext:S          the same on the most recently delivered block that is not on the active chain
+//	hold:S         build on the tip but do not deliver; child:S builds on the held block and
+//	               delivers it (an orphan); deliver hands the held block over
+//
+// Search: level-synchronous breadth-first search to depth d with a global (digest → state) memo
+// kept by the parent process; every transition is executed by replaying the state's shortest
+// history on a fresh node in a worker process and applying one more operation. Every replay
+// must reproduce the digest recorded for the state (determinism self-check).
+//
+// Oracles after every operation (reference model = replay of the active chain in Go maps):
+//
+//	active-chain   every block on the active chain is a factory block; replaying genesis..tip, every
+//	               input refers to an output created earlier on that chain and not yet spent
+//	unspent-index  GetUnspent(tx) of every transaction the factory knows == replay
+//	pool           no two pool transactions share an outpoint; no pool transaction spends an
+//	               outpoint spent on the active chain (after the node's own event-driven cleanup)
+//	rejection      a block extending the tip that spends twice / spends a spent or never-created
+//	               outpoint of its own chain makes ProcessBlock return an error
 package main
 
 import (
+	"encoding/json"
 	"fmt"
 	"os"
-	"runtime/pprof"
+	"path/filepath"
+	"runtime/debug"
+	"sort"
+	"strconv"
+	"strings"
+	"time"
+
+	"github.com/elastos/Elastos.ELA/common"
+	"github.com/elastos/Elastos.ELA/core/types"
+	common2 "github.com/elastos/Elastos.ELA/core/types/common"
+	"github.com/elastos/Elastos.ELA/core/types/interfaces"
 
 	"verif/chainkit"
+	"verif/evid"
+	"verif/par"
 )
 
+const prefixLen = 4
+
+// ---------------------------------------------------------------------------------------------
+// alphabet
+
+type alphabet struct {
+	Name  string   `json:"family"`
+	Subs  []int    `json:"subs"`
+	Mine  []string `json:"mine"`
+	ForkK []int    `json:"fork_k"`
+	Fork  []string `json:"fork"`
+	Ext   []string `json:"ext"`
+	Hold  []string `json:"hold"`
+	Child []string `json:"child"`
+	Depth int      `json:"depth"`
+}
+
+// The declared space is the union, over the families of the tier, of all operation sequences of
+// length <= Depth over the family's alphabet ("wide": every kind of operation, all pool offers;
+// "reorg": the operations that build competing branches, one level deeper).
+func familiesFor(tier string) (fams []alphabet, budgetS int) {
+	if tier == "thorough" {
+		return []alphabet{
+			{Name: "wide", Subs: []int{0, 1, 2, 3, 4, 5, 6, 7},
+				Mine:  []string{"-", "pool", "1", "3", "5", "6", "7", "0+1", "0+5", "2+7", "3+4", "5+6"},
+				ForkK: []int{1, 2}, Fork: []string{"-", "1", "4"}, Ext: []string{"-", "0", "1"},
+				Hold: []string{"-", "0"}, Child: []string{"-", "5"}, Depth: 5},
+			{Name: "reorg", Subs: []int{0, 1, 5},
+				Mine:  []string{"-", "pool", "1", "0+1"},
+				ForkK: []int{1}, Fork: []string{"-", "1"}, Ext: []string{"-", "1"}, Depth: 7},
+		}, 1700
+	}
+	return []alphabet{
+		{Name: "wide", Subs: []int{0, 1, 2, 3, 5},
+			Mine:  []string{"-", "pool", "1", "0+1", "0+5"},
+			ForkK: []int{1}, Fork: []string{"-", "1"}, Ext: []string{"-", "1"},
+			Hold: []string{"-"}, Child: []string{"-"}, Depth: 4},
+		{Name: "reorg", Subs: []int{0, 1},
+			Mine:  []string{"-", "pool", "0+1"},
+			ForkK: []int{1}, Fork: []string{"-", "1"}, Ext: []string{"-", "1"}, Depth: 5},
+	}, 100
+}
+
+// ---------------------------------------------------------------------------------------------
+// world = one execution
+
+type world struct {
+	al     *alphabet
+	n      *chainkit.Node
+	menu   []interfaces.Transaction
+	prefix []*types.Block
+
+	built    []*types.Block // blocks built on this path, in order
+	lastSide *types.Block
+	held     *types.Block
+	childOK  bool // child of the held block already delivered
+	reorged  bool // some operation so far disconnected blocks
+
+	c counters
+}
+
+type counters struct {
+	BadTipOffered, BadTipRejected             int // tip-extending blocks spending twice/spent/unborn
+	BadSideOffered                            int
+	GoodBlocksAccepted                        int
+	BlocksWithTxsAccepted                     int
+	Reorgs, FailedReorgs                      int
+	PoolConflictOffered, PoolConflictRejected int
+	PoolAccepted                              int
+	Orphans                                   int
+}
+
+func (c *counters) add(o counters) {
+	c.BadTipOffered += o.BadTipOffered
+	c.BadTipRejected += o.BadTipRejected
+	c.BadSideOffered += o.BadSideOffered
+	c.GoodBlocksAccepted += o.GoodBlocksAccepted
+	c.BlocksWithTxsAccepted += o.BlocksWithTxsAccepted
+	c.Reorgs += o.Reorgs
+	c.FailedReorgs += o.FailedReorgs
+	c.PoolConflictOffered += o.PoolConflictOffered
+	c.PoolConflictRejected += o.PoolConflictRejected
+	c.PoolAccepted += o.PoolAccepted
+	c.Orphans += o.Orphans
+}
+
+type fail struct {
+	Sig  string `json:"sig"`
+	What string `json:"what"`
+}
+
+func failf(sig, f string, a ...interface{}) *fail { return &fail{Sig: sig, What: fmt.Sprintf(f, a...)} }
+
+var (
+	menuOnce []interfaces.Transaction
+)
+
+func op(tx interfaces.Transaction, i int) common2.OutPoint {
+	return common2.OutPoint{TxID: tx.Hash(), Index: uint16(i)}
+}
+
+func newWorld(al *alphabet) *world {
+	n, err := chainkit.NewNode(chainkit.Config{CoinbaseMaturity: 1})
+	if err != nil {
+		evid.Fatalf("C06: new node: %v", err)
+	}
+	w := &world{al: al, n: n}
+	parent := n.Genesis()
+	for i := 0; i < prefixLen; i++ {
+		b := n.BuildBlock(parent, nil, 0)
+		in, orphan, err := n.ProcessBlock(b)
+		if err != nil || !in || orphan {
+			evid.Fatalf("C06: prefix block %d not connected: in=%v orphan=%v err=%v", i+1, in, orphan, err)
+		}
+		w.prefix = append(w.prefix, b)
+		parent = b
+	}
+	if menuOnce == nil {
+		A, M, C := chainkit.Key("foundation"), chainkit.Key("miner"), chainkit.Key("carol")
+		cb1, cb2 := w.prefix[0].Transactions[0], w.prefix[1].Transactions[0]
+		v := func(tx interfaces.Transaction, i int) common.Fixed64 { return tx.Outputs()[i].Value }
+		const fee = 1000
+		t0 := chainkit.SignedTransfer(A, []common2.OutPoint{op(cb1, 0)}, []chainkit.Out{{To: C, Value: v(cb1, 0) - fee}}, 0)
+		menuOnce = []interfaces.Transaction{
+			t0,
+			chainkit.SignedTransfer(A, []common2.OutPoint{op(cb1, 0)}, []chainkit.Out{{To: M, Value: v(cb1, 0) - fee}}, 1),
+			chainkit.SignedTransfer(A, []common2.OutPoint{op(cb1, 0), op(cb1, 2)}, []chainkit.Out{{To: C, Value: v(cb1, 0) + v(cb1, 2) - fee}}, 2),
+			chainkit.SignedTransfer(M, []common2.OutPoint{op(cb2, 1)}, []chainkit.Out{{To: A, Value: v(cb2, 1) - fee}}, 3),
+			chainkit.SignedTransfer(M, []common2.OutPoint{op(cb2, 1)}, []chainkit.Out{{To: C, Value: v(cb2, 1) - fee}}, 4),
+			chainkit.SignedTransfer(C, []common2.OutPoint{op(t0, 0)}, []chainkit.Out{{To: A, Value: v(t0, 0) - fee}}, 5),
+			chainkit.SignedTransfer(C, []common2.OutPoint{op(t0, 0)}, []chainkit.Out{{To: M, Value: v(t0, 0) - fee}}, 6),
+			chainkit.SignedTransfer(A, []common2.OutPoint{op(cb1, 2)}, []chainkit.Out{{To: M, Value: v(cb1, 2) - fee}}, 7),
+		}
+	}
+	w.menu = menuOnce
+	return w
+}
+
+func (w *world) close() { w.n.Close() }
+
+// block lookup over factory blocks
+func blockOf(h common.Uint256) *types.Block { return chainkit.KnownBlock(h) }
+
+func (w *world) activeBlocks() ([]*types.Block, *fail) {
+	var out []*types.Block
+	for i, h := range w.n.ActiveChain() {
+		b := blockOf(h)
+		if b == nil {
+			return nil, failf("C06|active-chain|unknown-block", "active chain holds block %s at height %d that the harness never built", chainkit.Short(h), i)
+		}
+		out = append(out, b)
+	}
+	return out, nil
+}
+
+// view is the reference UTXO model of one chain.
+type view struct {
+	created map[common2.OutPoint]bool
+	spent   map[common2.OutPoint]common.Uint256 // outpoint -> spending tx
+}
+
+func newView() *view {
+	return &view{created: map[common2.OutPoint]bool{}, spent: map[common2.OutPoint]common.Uint256{}}
+}
+
+// applyBlock replays b on v; bad describes the first rule b breaks on this chain ("" = none).
+// Outputs created earlier in the same block count as created (the repository refuses them; the
+// property does not require either answer).
+func (v *view) applyBlock(b *types.Block) (bad string) {
+	for ti, tx := range b.Transactions {
+		if ti > 0 || b.Height > 0 {
+			if !tx.IsCoinBaseTx() {
+				for _, in := range tx.Inputs() {
+					p := in.Previous
+					if _, dup := v.spent[p]; dup {
+						if bad == "" {
+							bad = "spent-twice"
+						}
+						continue
+					}
+					if !v.created[p] {
+						if bad == "" {
+							bad = "never-created"
+						}
+					}
+					v.spent[p] = tx.Hash()
+				}
+			}
+		}
+		for i := range tx.Outputs() {
+			v.created[common2.OutPoint{TxID: tx.Hash(), Index: uint16(i)}] = true
+		}
+	}
+	return bad
+}
+
+// ancestry returns genesis..b following factory parent links.
+func ancestry(b *types.Block) []*types.Block {
+	var rev []*types.Block
+	for x := b; x != nil; {
+		rev = append(rev, x)
+		if x.Height == 0 {
+			break
+		}
+		x = blockOf(x.Header.Previous)
+	}
+	for i, j := 0, len(rev)-1; i < j; i, j = i+1, j-1 {
+		rev[i], rev[j] = rev[j], rev[i]
+	}
+	return rev
+}
+
+// classify tells which rule b breaks on its own chain ("" = none).
+func classify(b *types.Block) string {
+	v := newView()
+	chain := ancestry(b)
+	for _, x := range chain[:len(chain)-1] {
+		v.applyBlock(x)
+	}
+	// in-block: a transaction spending an output created earlier in the same block is not
+	// classified (see applyBlock); same-block double spends are.
+	return v.applyBlock(b)
+}
+
+func (w *world) contentTxs(s string) []interfaces.Transaction {
+	switch s {
+	case "-":
+		return nil
+	case "pool":
+		var out []interfaces.Transaction
+		for _, h := range w.n.PoolHashes() {
+			tx := chainkit.KnownTx(h)
+			if tx == nil {
+				evid.Fatalf("C06: pool holds a transaction the harness never built")
+			}
+			out = append(out, tx)
+		}
+		return out
+	}
+	var out []interfaces.Transaction
+	for _, p := range strings.Split(s, "+") {
+		i, err := strconv.Atoi(p)
+		if err != nil || i < 0 || i >= len(w.menu) {
+			evid.Fatalf("C06: bad content %q", s)
+		}
+		out = append(out, w.menu[i])
+	}
+	return out
+}
+
+func (w *world) tipBlock() *types.Block { return blockOf(w.n.Tip()) }
+
+func (w *world) ops() []string {
+	var ops []string
+	inPool := map[common.Uint256]bool{}
+	for _, h := range w.n.PoolHashes() {
+		inPool[h] = true
+	}
+	for _, i := range w.al.Subs {
+		if !inPool[w.menu[i].Hash()] {
+			ops = append(ops, fmt.Sprintf("sub:%d", i))
+		}
+	}
+	for _, s := range w.al.Mine {
+		if s == "pool" && len(inPool) == 0 {
+			continue
+		}
+		ops = append(ops, "mine:"+s)
+	}
+	h := w.n.Height()
+	for _, k := range w.al.ForkK {
+		if int(h)-k >= prefixLen-1 { // fork parents stay where both coinbases are mature
+			for _, s := range w.al.Fork {
+				ops = append(ops, fmt.Sprintf("fork:%d:%s", k, s))
+			}
+		}
+	}
+	if w.lastSide != nil {
+		for _, s := range w.al.Ext {
+			ops = append(ops, "ext:"+s)
+		}
+	}
+	if w.held == nil {
+		for _, s := range w.al.Hold {
+			ops = append(ops, "hold:"+s)
+		}
+	} else {
+		if !w.childOK {
+			for _, s := range w.al.Child {
+				ops = append(ops, "child:"+s)
+			}
+		}
+		ops = append(ops, "deliver")
+	}
+	return ops
+}
+
+// inputsConflict reports whether tx shares an outpoint with a pool transaction or spends an
+// outpoint spent on the active chain.
+func (w *world) conflicts(tx interfaces.Transaction) bool {
+	used := map[common2.OutPoint]bool{}
+	for _, p := range w.n.PoolTxs() {
+		for _, in := range p.Inputs() {
+			used[in.Previous] = true
+		}
+	}
+	blocks, f := w.activeBlocks()
+	if f == nil {
+		v := newView()
+		for _, b := range blocks {
+			v.applyBlock(b)
+		}
+		for p := range v.spent {
+			used[p] = true
+		}
+	}
+	for _, in := range tx.Inputs() {
+		if used[in.Previous] {
+			return true
+		}
+	}
+	return false
+}
+
+func (w *world) deliver(kind string, b *types.Block, expectOrphan bool) *fail {
+	tipBefore := w.n.Tip()
+	extendsTip := b.Header.Previous == tipBefore
+	bad := classify(b)
+	disc0 := w.n.Disconnected
+	inMain, orphan, err := w.n.ProcessBlock(b)
+	if w.n.Disconnected > disc0 {
+		w.reorged = true
+		if err != nil {
+			w.c.FailedReorgs++
+		} else {
+			w.c.Reorgs++
+		}
+	}
+	if orphan && err == nil {
+		w.c.Orphans++
+	}
+	if bad != "" {
+		if extendsTip {
+			w.c.BadTipOffered++
+			if err != nil {
+				w.c.BadTipRejected++
+			} else {
+				return failf("C06|rejection|tip-block-"+bad+"-accepted|via="+kind,
+					"block %s at height %d extending the tip breaks rule %q on its own chain but ProcessBlock returned inMain=%v orphan=%v err=nil",
+					chainkit.Short(b.Hash()), b.Height, bad, inMain, orphan)
+			}
+		} else {
+			w.c.BadSideOffered++
+		}
+	} else if err == nil && inMain {
+		w.c.GoodBlocksAccepted++
+		if len(b.Transactions) > 1 {
+			w.c.BlocksWithTxsAccepted++
+		}
+	}
+	// bookkeeping: lastSide = the block most recently detached from the active chain by a
+	// reorganisation, else the most recently delivered block the node knows that is off the
+	// active chain; cleared when it is (back) on the active chain.
+	onChain := func(x *types.Block) bool {
+		h, e := w.n.BlockHashAt(x.Height)
+		return e == nil && h == x.Hash()
+	}
+	if old := blockOf(tipBefore); old != nil && !onChain(old) {
+		w.lastSide = old
+	} else if err == nil && !orphan && !onChain(b) {
+		w.lastSide = b
+	}
+	if w.lastSide != nil && onChain(w.lastSide) {
+		w.lastSide = nil
+	}
+	return nil
+}
+
+func (w *world) apply(o string) *fail {
+	parts := strings.SplitN(o, ":", 3)
+	kind := parts[0]
+	var f *fail
+	switch kind {
+	case "sub":
+		i, _ := strconv.Atoi(parts[1])
+		tx := w.menu[i]
+		conf := w.conflicts(tx)
+		err := w.n.Submit(tx)
+		if conf {
+			w.c.PoolConflictOffered++
+			if err != nil {
+				w.c.PoolConflictRejected++
+			}
+		}
+		if err == nil {
+			w.c.PoolAccepted++
+		}
+	case "mine":
+		b := w.n.BuildBlock(w.tipBlock(), w.contentTxs(parts[1]), 0)
+		w.built = append(w.built, b)
+		f = w.deliver(kind, b, false)
+	case "fork":
+		k, _ := strconv.Atoi(parts[1])
+		ph, err := w.n.BlockHashAt(w.n.Height() - uint32(k))
+		if err != nil {
+			evid.Fatalf("C06: fork parent: %v", err)
+		}
+		// forkID 1+k keeps siblings of the active block distinct from blocks mined on the tip
+		b := w.n.BuildBlock(blockOf(ph), w.contentTxs(parts[2]), uint32(1+k))
+		w.built = append(w.built, b)
+		f = w.deliver(kind, b, false)
+	case "ext":
+		b := w.n.BuildBlock(w.lastSide, w.contentTxs(parts[1]), 1)
+		w.built = append(w.built, b)
+		f = w.deliver(kind, b, false)
+	case "hold":
+		b := w.n.BuildBlock(w.tipBlock(), w.contentTxs(parts[1]), 4)
+		w.built = append(w.built, b)
+		w.held = b
+	case "child":
+		b := w.n.BuildBlock(w.held, w.contentTxs(parts[1]), 4)
+		w.built = append(w.built, b)
+		w.childOK = true
+		f = w.deliver(kind, b, true)
+	case "deliver":
+		b := w.held
+		w.held = nil
+		w.childOK = false
+		f = w.deliver(kind, b, false)
+	default:
+		evid.Fatalf("C06: unknown op %q", o)
+	}
+	if f != nil {
+		return f
+	}
+	return w.check(kind)
+}
+
+func fmtIdx(u []uint16) string { return fmt.Sprint(u) }
+
+// check evaluates the state oracles.
+func (w *world) check(via string) *fail {
+	blocks, f := w.activeBlocks()
+	if f != nil {
+		return f
+	}
+	after := "connect"
+	if w.reorged {
+		after = "reorg"
+	}
+	v := newView()
+	for _, b := range blocks {
+		// replay with first-violation reporting
+		for ti, tx := range b.Transactions {
+			if (ti > 0 || b.Height > 0) && !tx.IsCoinBaseTx() {
+				for _, in := range tx.Inputs() {
+					p := in.Previous
+					if by, dup := v.spent[p]; dup {
+						rel := "cross-block"
+						for _, t2 := range b.Transactions {
+							if t2.Hash() == by {
+								rel = "same-block"
+							}
+						}
+						return failf("C06|active-chain|outpoint-spent-twice|"+rel+"|via="+via,
+							"active chain spends %s:%d twice: by %s and by %s (block %s, height %d)",
+							chainkit.Short(p.TxID), p.Index, chainkit.Short(by), chainkit.Short(tx.Hash()), chainkit.Short(b.Hash()), b.Height)
+					}
+					if !v.created[p] {
+						return failf("C06|active-chain|spend-of-never-created-output|via="+via,
+							"active chain block %s (height %d): %s spends %s:%d which was never created on this chain",
+							chainkit.Short(b.Hash()), b.Height, chainkit.Short(tx.Hash()), chainkit.Short(p.TxID), p.Index)
+					}
+					v.spent[p] = tx.Hash()
+				}
+			}
+			for i := range tx.Outputs() {
+				v.created[common2.OutPoint{TxID: tx.Hash(), Index: uint16(i)}] = true
+			}
+		}
+	}
+	// unspent index vs replay, for every transaction the factory knows
+	for _, id := range chainkit.KnownTxs() {
+		tx := chainkit.KnownTx(id)
+		var want []uint16
+		for i := range tx.Outputs() {
+			p := common2.OutPoint{TxID: id, Index: uint16(i)}
+			if v.created[p] {
+				if _, s := v.spent[p]; !s {
+					want = append(want, uint16(i))
+				}
+			}
+		}
+		got, _ := w.n.Unspent(id)
+		if fmtIdx(got) != fmtIdx(want) {
+			cls := "extra-entry"
+			if len(got) < len(want) {
+				cls = "missing-entry"
+			}
+			kind := "transfer"
+			if tx.IsCoinBaseTx() {
+				kind = "coinbase"
+			}
+			return failf("C06|unspent-index|"+cls+"|tx="+kind+"|after="+after,
+				"GetUnspent(%s) = %v, replay of the active chain (height %d) says %v", chainkit.Short(id), got, len(blocks)-1, want)
+		}
+	}
+	// pool
+	used := map[common2.OutPoint]common.Uint256{}
+	for _, tx := range w.n.PoolTxs() {
+		for _, in := range tx.Inputs() {
+			if by, ok := used[in.Previous]; ok {
+				return failf("C06|pool|two-txs-share-outpoint|via="+via,
+					"pool holds %s and %s, both spending %s:%d", chainkit.Short(by), chainkit.Short(tx.Hash()), chainkit.Short(in.Previous.TxID), in.Previous.Index)
+			}
+			used[in.Previous] = tx.Hash()
+			if by, ok := v.spent[in.Previous]; ok {
+				return failf("C06|pool|spends-outpoint-spent-on-chain|via="+via+"|after="+after,
+					"pool holds %s spending %s:%d which the active chain already spent (by %s)", chainkit.Short(tx.Hash()), chainkit.Short(in.Previous.TxID), in.Previous.Index, chainkit.Short(by))
+			}
+		}
+	}
+	return nil
+}
+
+// digest = chainkit digest (active chain, unspent index, pool) + what the node knows of the
+// blocks built on this path (main / side / orphan) + harness selectors (lastSide, held, child).
+// Dropped: blocks the node rejected outright (they left no entry in the block index or orphan
+// pool), the UTXO reference cache and per-address index (transparent to this property).
+func (w *world) digest() string {
+	var sb strings.Builder
+	sb.WriteString(w.n.Digest())
+	var known []string
+	seen := map[common.Uint256]bool{}
+	for _, b := range w.built {
+		h := b.Hash()
+		if seen[h] {
+			continue
+		}
+		seen[h] = true
+		st := ""
+		if w.n.Chain.IsKnownOrphan(&h) {
+			st = "o"
+		} else if w.n.Chain.BlockExists(&h) {
+			st = "k"
+		}
+		if st != "" {
+			known = append(known, chainkit.Short(h)+st)
+		}
+	}
+	sort.Strings(known)
+	sb.WriteString("|" + strings.Join(known, ","))
+	if w.lastSide != nil {
+		sb.WriteString("|S" + chainkit.Short(w.lastSide.Hash()))
+	}
+	if w.held != nil {
+		sb.WriteString("|H" + chainkit.Short(w.held.Hash()))
+		if w.childOK {
+			sb.WriteString("c")
+		}
+	}
+	if w.reorged {
+		sb.WriteString("|R")
+	}
+	return sb.String()
+}
+
+// ---------------------------------------------------------------------------------------------
+// execution of one history
+
+type execResult struct {
+	Digest string
+	Fail   *fail
+	FailAt int // index of the failing op
+	C      counters
+	Ops    []string // enabled in the final state (nil if failed)
+}
+
+func run(al *alphabet, hist []string, wantOps bool) (res execResult) {
+	w := newWorld(al)
+	defer w.close()
+	defer func() {
+		if e := recover(); e != nil {
+			st := debug.Stack()
+			res.Fail = &fail{Sig: "C06|panic|" + evid.PanicSite(st), What: fmt.Sprintf("panic: %v", e)}
+			res.FailAt = len(hist) - 1
+		}
+	}()
+	if len(hist) == 0 {
+		if f := w.check("root"); f != nil {
+			res.Fail, res.FailAt = f, -1
+			return
+		}
+	}
+	for i, o := range hist {
+		if i == len(hist)-1 {
+			w.c = counters{} // counters describe the last transition only
+		}
+		if f := w.apply(o); f != nil {
+			res.Fail, res.FailAt = f, i
+			res.C = w.c
+			return
+		}
+	}
+	res.C = w.c
+	res.Digest = w.digest()
+	if wantOps {
+		res.Ops = w.ops()
+	}
+	return
+}
+
+// ---------------------------------------------------------------------------------------------
+// worker protocol
+
+type state struct {
+	Hist   []string `json:"h"`
+	Digest string   `json:"d"`
+}
+
+type levelFile struct {
+	Al       alphabet `json:"al"`
+	Frontier []state  `json:"frontier"`
+}
+
+type transOut struct {
+	From   int      `json:"f"`
+	Op     string   `json:"o"`
+	Digest string   `json:"d,omitempty"`
+	Fail   *fail    `json:"x,omitempty"`
+	C      counters `json:"c"`
+}
+
+type workerOut struct {
+	Trans []transOut `json:"t"`
+	Execs int        `json:"e"`
+	Err   string     `json:"err,omitempty"`
+	Cut   bool       `json:"cut"` // stopped early (deadline)
+	Ms    []int      `json:"ms,omitempty"`
+}
+
+func workerMain(job string) {
+	// job = <level file>|<idx>|<stride>|<deadline unix>
+	p := strings.Split(job, "|")
+	idx, _ := strconv.Atoi(p[1])
+	stride, _ := strconv.Atoi(p[2])
+	dl, _ := strconv.ParseInt(p[3], 10, 64)
+	deadline := time.Unix(dl, 0)
+	var lf levelFile
+	b, err := os.ReadFile(p[0])
+	if err != nil {
+		evid.Fatalf("worker: %v", err)
+	}
+	if err := json.Unmarshal(b, &lf); err != nil {
+		evid.Fatalf("worker: %v", err)
+	}
+	var out workerOut
+	for i := idx; i < len(lf.Frontier); i += stride {
+		if time.Now().After(deadline) {
+			out.Cut = true
+			break
+		}
+		st := lf.Frontier[i]
+		par.Announce(strings.Join(st.Hist, " "))
+		base := run(&lf.Al, st.Hist, true)
+		out.Execs++
+		if base.Fail != nil || base.Digest != st.Digest {
+			out.Err = fmt.Sprintf("replay of clean history %v diverged: fail=%v digest %s vs recorded %s", st.Hist, base.Fail, base.Digest, st.Digest)
+			break
+		}
+		for _, o := range base.Ops {
+			h := append(append([]string{}, st.Hist...), o)
+			par.Announce(strings.Join(h, " "))
+			tr := time.Now()
+			r := run(&lf.Al, h, false)
+			if os.Getenv("C06_TIMING") != "" {
+				out.Ms = append(out.Ms, int(time.Since(tr).Milliseconds()))
+			}
+			out.Execs++
+			t := transOut{From: i, Op: o, Digest: r.Digest, C: r.C}
+			if r.Fail != nil {
+				if r.FailAt != len(h)-1 {
+					out.Err = fmt.Sprintf("history %v failed at clean prefix op %d: %s", h, r.FailAt, r.Fail.Sig)
+					break
+				}
+				// confirm twice
+				for k := 0; k < 2; k++ {
+					r2 := run(&lf.Al, h, false)
+					out.Execs++
+					if r2.Fail == nil || r2.Fail.Sig != r.Fail.Sig {
+						out.Err = fmt.Sprintf("failing history %v does not reproduce: %s then %v", h, r.Fail.Sig, r2.Fail)
+						break
+					}
+				}
+				t.Fail = r.Fail
+			}
+			out.Trans = append(out.Trans, t)
+		}
+		if out.Err != "" {
+			break
+		}
+	}
+	chainkit.Cleanup()
+	par.Emit(out)
+}
+
+// ---------------------------------------------------------------------------------------------
+// parent
+
+type famResult struct {
+	Family      string         `json:"family"`
+	Alphabet    alphabet       `json:"alphabet"`
+	States      int64          `json:"states"`
+	Transitions int64          `json:"transitions"`
+	Execs       int64          `json:"executions"`
+	DepthDone   int            `json:"max_depth_completed"`
+	PerDepth    []int          `json:"states_per_depth"`
+	Exhaustive  bool           `json:"exhaustive"`
+	Cap         string         `json:"cap,omitempty"`
+	OpKinds     map[string]int `json:"transitions_by_op_kind"`
+	Noops       map[string]int `json:"transitions_without_state_change_by_op_kind"`
+	WallS       float64        `json:"wall_s"`
+	samples     [][]string
+}
+
+func explore(r *evid.Run, al alphabet, scratch string, deadline time.Time, total *counters) famResult {
+	start := time.Now()
+	fr := famResult{Family: al.Name, Alphabet: al, Exhaustive: true, OpKinds: map[string]int{}, Noops: map[string]int{}}
+	root := run(&al, nil, false)
+	root2 := run(&al, nil, false)
+	fr.Execs = 2
+	if root.Fail != nil {
+		r.Violate(root.Fail.Sig, root.Fail.What, map[string]interface{}{"history": []string{}})
+		fr.Exhaustive = false
+		fr.Cap = "root state violates an oracle"
+		return fr
+	}
+	if root.Digest != root2.Digest {
+		evid.Fatalf("C06: two fresh nodes disagree on the root digest")
+	}
+	seen := map[string]bool{root.Digest: true}
+	frontier := []state{{Hist: []string{}, Digest: root.Digest}}
+	fr.States = 1
+	fr.PerDepth = []int{1}
+	workers := par.Workers()
+	for depth := 0; depth < al.Depth && len(frontier) > 0; depth++ {
+		if time.Now().After(deadline) {
+			fr.Exhaustive = false
+			fr.Cap = fmt.Sprintf("time budget reached before depth %d", depth+1)
+			break
+		}
+		lf := levelFile{Al: al, Frontier: frontier}
+		b, _ := json.Marshal(lf)
+		lp := filepath.Join(scratch, fmt.Sprintf("%s-level%d.json", al.Name, depth))
+		if err := os.WriteFile(lp, b, 0o644); err != nil {
+			evid.Fatalf("C06: %v", err)
+		}
+		nw := workers
+		if nw > len(frontier) {
+			nw = len(frontier)
+		}
+		jobs := make([]string, nw)
+		for i := range jobs {
+			jobs[i] = fmt.Sprintf("%s|%d|%d|%d", lp, i, nw, deadline.Unix())
+		}
+		left := time.Until(deadline)
+		if left < 0 {
+			left = 0
+		}
+		// GOMAXPROCS=1: one worker process per core; a single P avoids long stop-the-world
+		// stalls on an oversubscribed machine (measured: steady state 5-10 ms per execution).
+		results := par.Procs(jobs, scratch, par.Opts{Timeout: left + 10*time.Minute, MemMB: 16384, Env: []string{"GOMAXPROCS=1"}})
+		var next []state
+		cut := false
+		byFrom := map[int][]transOut{}
+		for _, res := range results {
+			if res.Died || res.Out == nil {
+				evid.Fatalf("C06: worker %s died (announced %q): %s", res.Job, res.Announced, res.Stderr)
+			}
+			var wo workerOut
+			if err := json.Unmarshal(res.Out, &wo); err != nil {
+				evid.Fatalf("C06: worker output: %v", err)
+			}
+			if wo.Err != "" {
+				evid.Fatalf("C06: %s", wo.Err)
+			}
+			fr.Execs += int64(wo.Execs)
+			if len(wo.Ms) > 0 {
+				fmt.Println("worker ms:", wo.Ms)
+			}
+			if wo.Cut {
+				cut = true
+			}
+			for _, t := range wo.Trans {
+				byFrom[t.From] = append(byFrom[t.From], t)
+			}
+		}
+		// merge in frontier order: deterministic state numbering and shortest-history choice
+		for i := range frontier {
+			for _, t := range byFrom[i] {
+				fr.Transitions++
+				total.add(t.C)
+				kind := strings.SplitN(t.Op, ":", 2)[0]
+				fr.OpKinds[kind]++
+				h := append(append([]string{}, frontier[i].Hist...), t.Op)
+				if t.Fail != nil {
+					r.Violate(t.Fail.Sig, t.Fail.What, map[string]interface{}{"family": al.Name, "history": h})
+					continue
+				}
+				if t.Digest == frontier[i].Digest {
+					fr.Noops[kind]++
+				}
+				if !seen[t.Digest] {
+					seen[t.Digest] = true
+					fr.States++
+					next = append(next, state{Hist: h, Digest: t.Digest})
+				}
+			}
+		}
+		fr.PerDepth = append(fr.PerDepth, len(next))
+		frontier = next
+		if cut {
+			fr.Exhaustive = false
+			fr.Cap = fmt.Sprintf("time budget reached while expanding depth %d", depth+1)
+			break
+		}
+		fr.DepthDone = depth + 1
+		fmt.Printf("%s depth %d: %d new states, %d transitions, %d executions, %.0fs\n", al.Name, fr.DepthDone, len(next), fr.Transitions, fr.Execs, time.Since(start).Seconds())
+	}
+	for i := 0; i < len(frontier) && len(fr.samples) < 3; i += 1 + len(frontier)/3 {
+		fr.samples = append(fr.samples, frontier[i].Hist)
+	}
+	fr.WallS = float64(int(time.Since(start).Seconds()*10)) / 10
+	return fr
+}
+
 func main() {
+	if job, ok := par.Worker(); ok {
+		workerMain(job)
+		return
+	}
+	if len(os.Args) > 1 && os.Args[1] == "--bench" {
+		bench()
+		return
+	}
 	if len(os.Args) > 1 && os.Args[1] == "--cost" {
-		f, _ := os.Create("/tmp/ck.prof")
-		pprof.StartCPUProfile(f)
-		r, err := chainkit.Cost(30)
-		pprof.StopCPUProfile()
+		r, err := chainkit.Cost(40)
 		fmt.Printf("%+v err=%v\n", r, err)
 		chainkit.Cleanup()
 		return
 	}
+	r := evid.Start("C06", "model_checking")
+	fams, budget := familiesFor(r.Tier)
+	if s := os.Getenv("C06_DEPTH"); s != "" {
+		d, _ := strconv.Atoi(s)
+		for i := range fams {
+			fams[i].Depth = d
+		}
+	}
+	if r.Replay != "" {
+		var a struct {
+			History []string `json:"history"`
+		}
+		r.LoadReplay(&a)
+		al := fams[0]
+		res := run(&al, a.History, false)
+		res2 := run(&al, a.History, false)
+		chainkit.Cleanup()
+		if (res.Fail == nil) != (res2.Fail == nil) || res.Digest != res2.Digest {
+			evid.Fatalf("replay is not deterministic")
+		}
+		if res.Fail != nil {
+			fmt.Printf("replay: %v -> FAIL at op %d %s: %s\n", a.History, res.FailAt, res.Fail.Sig, res.Fail.What)
+			r.Violate(res.Fail.Sig, res.Fail.What, map[string]interface{}{"history": a.History})
+		} else {
+			fmt.Printf("replay: %v -> ok, digest %s\n", a.History, res.Digest)
+		}
+		r.Finish(evid.Coverage{})
+	}
+
+	scratch := evid.Scratch("c06")
+	defer os.RemoveAll(scratch)
+	deadline := time.Now().Add(time.Duration(budget) * time.Second)
+	var total counters
+	var results []famResult
+	var states, transitions, execs int64
+	exhaustive := true
+	capNote := []string{}
+	depthDone := 1 << 30
+	samples := []interface{}{}
+	for _, al := range fams {
+		fr := explore(r, al, scratch, deadline, &total)
+		results = append(results, fr)
+		states += fr.States
+		transitions += fr.Transitions
+		execs += fr.Execs
+		if !fr.Exhaustive {
+			exhaustive = false
+			capNote = append(capNote, fr.Family+": "+fr.Cap)
+		}
+		if fr.DepthDone < depthDone {
+			depthDone = fr.DepthDone
+		}
+		for _, h := range fr.samples {
+			samples = append(samples, append([]string{fr.Family + ":"}, h...))
+		}
+	}
+	if len(samples) == 0 {
+		samples = append(samples, []string{})
+	}
+	chainkit.Cleanup()
+	os.RemoveAll(scratch)
+
+	// non-vacuity: engine-level expectations about the harness, not verdicts
+	if exhaustive && r.NumViolations() == 0 {
+		if total.BadTipOffered == 0 || total.Reorgs == 0 || total.PoolConflictOffered == 0 {
+			evid.Fatalf("C06: vacuous run: bad tip blocks offered %d, reorgs %d, pool conflicts offered %d", total.BadTipOffered, total.Reorgs, total.PoolConflictOffered)
+		}
+	}
+	cov := evid.Coverage{
+		"states":                        states,
+		"transitions":                   transitions,
+		"traces_validated_against_impl": execs,
+		"max_depth_completed":           depthDone,
+		"exhaustive":                    exhaustive,
+		"cap":                           strings.Join(capNote, "; "),
+		"families":                      results,
+		"non_vacuity": map[string]int{
+			"double_spending_tip_blocks_offered":  total.BadTipOffered,
+			"double_spending_tip_blocks_rejected": total.BadTipRejected,
+			"double_spending_side_blocks_offered": total.BadSideOffered,
+			"valid_blocks_connected":              total.GoodBlocksAccepted,
+			"valid_blocks_with_transfers":         total.BlocksWithTxsAccepted,
+			"reorganisations_executed":            total.Reorgs,
+			"reorganisations_failed":              total.FailedReorgs,
+			"pool_conflicts_offered":              total.PoolConflictOffered,
+			"pool_conflicts_rejected":             total.PoolConflictRejected,
+			"pool_submissions_accepted":           total.PoolAccepted,
+			"orphans_accepted":                    total.Orphans,
+		},
+		"rule":    "for every family (alphabet + depth, see families): breadth-first search over all operation sequences up to the depth on a fresh chainkit node (pure PoW era, CoinbaseMaturity 1, 4-block prefix, 8-transfer menu sharing outpoints of coinbases 1 and 2 and of each other); one fresh-node replay per transition in worker processes, global digest memo; state digest = active chain hashes + unspent index of all factory transactions + pool hashes + node-known side/orphan blocks of the path + harness selectors (lastSide, held); oracles after every operation: active-chain replay in maps (no outpoint spent twice, every spend refers to an earlier-created output), GetUnspent == replay for every known transaction, pool conflict-free and disjoint from chain-spent outpoints after the node's event-driven cleanup, tip blocks that double-spend on their own chain rejected; states counted per family (a state reached in two families is counted twice)",
+		"samples": samples,
+	}
+	r.Assume = append(r.Assume,
+		"pool cleanup is wired to chain events exactly as elanet/netsync.SyncManager.handleBlockchainEvents does (chainkit)",
+		"a transaction spending an output created earlier in the same block is not classified (the node refuses it; the property does not say)",
+		"blocks come only from the harness factory (single miner identity, constant difficulty)")
+	r.Finish(cov)
 }
